@@ -37,7 +37,12 @@ CONFIGS = {
                     KidsRoot=2, KidsRest=0, Schemes=['ext', 'dun', 'prv', 'app', 'upd']),
     'names2':  dict(MaxObjs=2, Shapes=['P', 'S', 'SD', 'ML', 'RL', 'list', 'GS'], Leaves=['i'], KidsRoot=2, KidsRest=1,
                     Schemes=['ord', 'ext', 'dun']),
+    # where the protocol methods live: own class vs inherited from a base, every shape, alone and above / below a list
+    'homes':   dict(MaxObjs=2, Shapes=['GS', 'GT', 'GV', 'GC', 'GL', 'PA', 'S', 'SD', 'NA', 'R3', 'RL', 'RD', 'ML', 'MD', 'list'],
+                    Leaves=['i'], KidsRoot=2, KidsRest=1, Homes=['inh']),
+    'homes1':  dict(MaxObjs=1, Shapes=ALL, Leaves=['i', 'i0'], KidsRoot=2, KidsRest=0, Homes=['inh'], Schemes=['ord', 'dun']),
     'triL':    dict(MaxObjs=3, Shapes=['list', 'GL', 'tuple', 'PA'], Leaves=['i'], KidsRoot=2, KidsRest=1),
+    'triLh':   dict(MaxObjs=3, Shapes=['list', 'GL', 'GC'], Leaves=['i'], KidsRoot=2, KidsRest=1, Homes=['inh']),
     'leaves':  dict(MaxObjs=1, Shapes=ALL, Leaves=['i', 'i0', 'z', 'c', 'n', 'm', 'e'], KidsRoot=2, KidsRest=0),
     'chainA5': dict(MaxObjs=3, Shapes=['list', 'P', 'GS', 'R2', 'GV'], Leaves=['i'], KidsRoot=1, KidsRest=1),
     'chainB5': dict(MaxObjs=3, Shapes=['dict', 'SD', 'GT', 'NA', 'RL'], Leaves=['i'], KidsRoot=1, KidsRest=1),
@@ -59,8 +64,8 @@ CONFIGS = {
     'quad_a':  dict(MaxObjs=4, Shapes=['list', 'P', 'GS', 'R2', 'tuple'], Leaves=['i'], KidsRoot=1, KidsRest=1),
     'quad_b':  dict(MaxObjs=4, Shapes=['dict', 'GV', 'ML', 'SD', 'NA'], Leaves=['i'], KidsRoot=1, KidsRest=1),
 }
-TIERS = {'quick': ['pairsAB', 'pairsC', 'names', 'triL', 'leaves', 'chainA5', 'chainB5'],
-         'thorough': ['pairs22', 'pairs_l', 'leaves2', 'names1', 'names2', 'triL', 'triL2', 'chainA', 'chainB', 'chainC', 'tri_a', 'tri_b', 'tri_c', 'tri_d', 'tri_e',
+TIERS = {'quick': ['pairsAB', 'pairsC', 'names', 'homes1', 'triLh', 'triL', 'leaves', 'chainA5', 'chainB5'],
+         'thorough': ['pairs22', 'pairs_l', 'leaves2', 'names1', 'names2', 'homes', 'homes1', 'triLh', 'triL', 'triL2', 'chainA', 'chainB', 'chainC', 'tri_a', 'tri_b', 'tri_c', 'tri_d', 'tri_e',
                       'tri_a2', 'tri_b2', 'quad_a', 'quad_b']}
 RANDOM = {'quick': 300, 'thorough': 12000}
 WORKERS = int(os.environ.get('VERIF_TLC_WORKERS', '16'))
@@ -161,7 +166,7 @@ def pickle2(o):
 
 def observe(yaml, C, g, seed):
     """instantiate g, dump / load / pickle it for real; returns the trace record (None if pickle itself refuses)"""
-    g = [dict(o, n=o.get('n', 'ord')) for o in g]
+    g = [dict(o, n=o.get('n', 'ord'), h=o.get('h', 'own')) for o in g]
     o = C.build(g, picker(g, seed))
     ref = C.project(pickle2(o))
     rec = {'g': g, 'ref': ref['heap'], 'rroot': ref['root'], 'unsafe': [], 'uwho': [], 'tags': [], 'full': [], 'fwho': [],
@@ -366,7 +371,8 @@ def random_graph(rnd):
                 p, a = [val() for _ in range(rnd.randrange(1, 4))], []
             else:
                 p, a = [val() for _ in range(rnd.randrange(1 if last else 0, 4))], []
-            g.append({'s': s, 'p': p, 'a': a, 'n': rnd.choice(SCHEMES) if a and rnd.random() < 0.4 else 'ord'})
+            g.append({'s': s, 'p': p, 'a': a, 'n': rnd.choice(SCHEMES) if a and rnd.random() < 0.4 else 'ord',
+                      'h': 'inh' if rnd.random() < 0.35 else 'own'})
         if in_domain(g):
             return g
 
@@ -469,7 +475,7 @@ def main(tier, replay=None):
     def mc(name):
         return tlc.run('Reduce', cfg='MC_Reduce.cfg', dump=True, tag='C17_' + name, timeout=3000, coverage=False,
                        workers=max(2, WORKERS // min(par, 4)), heap='8g' if par == 1 else '3g',
-                       constants=dict({'Schemes': tla(['ord'])}, **dict({k: tla(x) for k, x in CONFIGS[name].items()}, CodeFixes=tla(fixes))))
+                       constants=dict({'Schemes': tla(['ord']), 'Homes': tla(['own'])}, **dict({k: tla(x) for k, x in CONFIGS[name].items()}, CodeFixes=tla(fixes))))
     with ThreadPoolExecutor(par) as ex:
         runs = dict(zip(TIERS[tier], ex.map(mc, TIERS[tier])))
     for name in TIERS[tier]:
